@@ -63,6 +63,44 @@ def registry():
                      ensures={'comps': 'result.p._value == %s and result.g._value == %s and result.y._value == %s' % (et(0), et(1), et(2)),
                               'private': 'hasattr(result, "x") == (len(tup) == 4)', 'x': 'len(tup) == 4 ==> result.x._value == %s' % et(3)},
                      modifies=[]))
+    # C18 / C05: generate(bits, randfunc, domain=(p, q, g)): FIPS 186-4 B.1.1 'extra random bits': c = N + 64 tape bits (top bit forced),
+    # x = c mod (q - 1) + 1 in [1, q - 1] -- the one documented modular reduction (bias <= 2^-64) --, y = g^x mod p.
+    # domain=None (A.1.1.2 / A.2.3 domain generation: hash-driven search loops) is NOT PROVED here.
+    from . import key_ecc
+    import z3
+    from vf.pyvc.values import SOpaque, mk_int, zint
+    from .ecc_common import int_of, mk_integer, uf
+    rf_hook = key_ecc.install_entropy(reg)
+    reg.opaque_call_hook = rf_hook
+
+    def random_model(E, st, args, kw):
+        bits = kw.get('exact_bits')
+        f = kw.get('randfunc')
+        if bits is None or set(kw) - {'exact_bits', 'randfunc'}:
+            raise Exception('Integer.random: unsupported call shape')
+        E.registry.used.add('assumed: Integer.random(exact_bits) == top-bit-forced big-endian value of the tape bytes (C18, random area)')
+        if isinstance(f, SOpaque) and f.label.startswith('callable:randfunc'):
+            cur = st.ghost.get('rnd_cursor', 0)
+            v = uf(E, st, 'spec.keys.random_exact_bits', bits, cur)
+            st.ghost['rnd_cursor'] = mk_int(zint(cur) + 2)
+        else:
+            v = E.fresh_int('system_random')
+            st.ghost['sys_cursor'] = st.ghost.get('sys_cursor', 0) + 1
+        return [('val', st, mk_integer(st, v))]
+    reg.models['Crypto.Math._IntegerBase.IntegerBase.random'] = random_model
+    p_, q_, g_ = 'domain[0]', 'domain[1]', 'domain[2]'
+    L, N = '%s.bit_length()' % p_, '%s.bit_length()' % q_
+    dom_ok = 'spec.keys.dsa_domain_ok(%s, %s, %s)' % (p_, q_, g_)
+    x_ = '(spec.keys.random_exact_bits(%s + 64, 0) %% (%s - 1) + 1)' % (N, q_)
+    reg.add(Contract(D + 'generate', params={'bits': 'int', 'randfunc': 'any:callable:randfunc', 'domain': 'tuple(int,int,int)'},
+                     requires=['rnd_cursor() == 0'],
+                     raises={'ValueError': ('iff', 'not %s or %s != bits or (%s, %s) not in spec.keys.DSA_LN' % (dom_ok, L, L, N))}, result=ODKEY,
+                     ensures={'domain': 'result._key["p"]._value == %s and result._key["q"]._value == %s and result._key["g"]._value == %s' % (p_, q_, g_),
+                              'x': 'result._key["x"]._value == %s' % x_,
+                              'x_range': '1 <= result._key["x"]._value and result._key["x"]._value <= %s - 1' % q_,
+                              'y': 'result._key["y"]._value == pow(%s, %s, %s)' % (g_, x_, p_),
+                              'tape': 'rnd_cursor() == 2'},
+                     modifies=[]))
     return reg
 
 
@@ -98,6 +136,8 @@ def units(prop, tier):
                 pyvc_unit(prop, 'key.elgamal.eq', registry, [EKEY + '.__eq__'])]
     if prop == 'C13':
         return [pyvc_unit(prop, 'key.dsa.import_der', cascade_registry, [D + f for f in CASCADE])]
+    if prop == 'C18':
+        return [pyvc_unit(prop, 'key.dsa.generate', registry, [D + 'generate'])]
     if prop == 'C05':
         return [pyvc_unit(prop, 'key.dsa.construct', registry, [D + 'construct']),
                 pyvc_unit(prop, 'key.elgamal.construct', registry, [E + 'construct'])]
